@@ -665,3 +665,56 @@ func ruleClearFirst(rule string) func(*Ctx) {
 }
 
 var _ = types.Identical
+
+// ruleCleanCollinear: C02.clean — a ring vertex is disposed exactly when it is collinear with its neighbours AND
+// (it duplicates a neighbour, or collinear vertices are not preserved, or it is a 180-degree spike).
+func ruleCleanCollinear(rule string) func(*Ctx) {
+	return func(c *Ctx) {
+		f := c.fn("(clipperBase).cleanCollinear")
+		loops := naturalLoops(f)
+		if len(loops) != 1 {
+			fatalf("cleanCollinear: expected one loop, found %d", len(loops))
+		}
+		ll := loops[0]
+		recv := f.Params[0].Name()
+		for _, preserve := range []bool{true, false} {
+			ex := &explorer{c: c, f: f, atoms: map[string]absVal{recv + ".preserveCollinear": boolVal(preserve)},
+				stop: func(b *ssa.BasicBlock) bool { return !ll.blocks[b] }, maxPaths: 2000}
+			outs := ex.explore(ll.header)
+			bad := ""
+			n := 0
+			for _, p := range outs {
+				if p.end != "loop" && p.end != "stop" && p.end != "return" {
+					continue
+				}
+				coll, evaluated := false, false
+				anyDisj := false
+				for _, cd := range p.conds {
+					switch {
+					case strings.HasPrefix(cd.expr, "isCollinear("):
+						coll, evaluated = cd.taken, true
+					case strings.Contains(cd.expr, ".pt == ") && cd.taken:
+						anyDisj = true
+					case strings.HasPrefix(cd.expr, "(dotProduct64(") && strings.HasSuffix(cd.expr, "< 0)") && cd.taken:
+						anyDisj = true
+					}
+				}
+				if !evaluated {
+					continue
+				}
+				n++
+				disposed := p.called("disposeOutPt")
+				want := coll && (anyDisj || !preserve)
+				if disposed != want {
+					bad = fmt.Sprintf("preserveCollinear=%v: vertex disposed=%v on path [%s], the rule requires %v", preserve, disposed, p.condString(), want)
+				}
+			}
+			if n < 3 && bad == "" {
+				bad = fmt.Sprintf("only %d decision paths found", n)
+			}
+			c.check(bad == "", rule, fmt.Sprintf("%s:cleanCollinear:preserve=%v", rule, preserve), f.Pos(), "(clipperBase).cleanCollinear",
+				fmt.Sprintf("preserveCollinear=%v: a vertex is removed iff collinear && (duplicate of a neighbour || !preserve || spike) — %d decision paths", preserve, n), bad,
+				"with preserve-collinear off every collinear vertex must go; with it on only duplicates and 180-degree spikes may: otherwise solutions keep repeated points / spikes or lose wanted vertices")
+		}
+	}
+}
